@@ -11,6 +11,12 @@ Header choice (`DBInner::meta`, modelled by `slotValid` / `selectSlots` / `openA
 * one damaged byte of the hashed image, or a damaged stored checksum, always invalidates the record
   (`one_damaged_hashed_byte_is_detected`, `damaged_checksum_is_detected`) — no collision assumption is
   needed for single-byte damage because every FNV-1a step is a bijection;
+* the same at the level of FILE bytes: changing exactly one byte of a valid header page at any checked offset
+  (page-type byte, any byte of a hashed field, any byte of the stored checksum — `checked_offsets_are`, computed
+  from the regenerated layout and hash order) invalidates the slot, and a file that agrees on the checked bytes
+  keeps the slot with the same record (`one_damaged_file_byte_is_detected`,
+  `undamaged_checked_bytes_keep_the_slot`; which file offset feeds which hashed byte is proved, not tested:
+  `metaHashInput_readMeta` in `Jamm/Proofs/MetaBytes.lean`);
 * the snapshot a commit replaced is not reused before the next writer begins, so the state the other
   header names is complete (`previous_snapshot_intact`).
 * the header page a commit writes is read back as exactly the record written, is valid, and nothing outside
@@ -25,6 +31,7 @@ import Jamm.Gen.HashOrder
 import Jamm.Proofs.HashLemmas
 import Jamm.Proofs.PrevSnapLemmas
 import Jamm.Proofs.EncodeMetaLemmas
+import Jamm.Proofs.MetaBytes
 set_option linter.unusedSectionVars false
 
 namespace Jamm.Props.C12
@@ -107,6 +114,62 @@ theorem damaged_checksum_is_detected (L : Layout) (order : List MetaField) (m m'
     (hv : metaValid L order m = true) (hne : m'.hash ≠ m.hash)
     (hf : metaHashInput L order m' = metaHashInput L order m) : metaValid L order m' = false :=
   damaged_checksum_invalidates L order m m' hv hne hf
+
+/-! ### single-byte damage at the level of file bytes -/
+
+/-- the checked offsets of a header page under the regenerated layout and hash order, relative to the start
+of the page: the page-type byte 8, the record bytes 32..43 (meta page, magic, version) and 48..95 (page size,
+root page, next int, number of pages, free-list page, transaction id), the stored checksum 96..103 -/
+theorem checked_offsets_are :
+    checkedOffsets Gen.layout Gen.hashOrder = 8 :: (List.range' 32 12 ++ List.range' 48 56) := by decide
+
+/-- the bytes of the first `pgPtr + metaSize` = 104 bytes of a header page that are NOT checked: the page
+header's id (0..7), the padding after the type byte and count / overflow (9..31), and the padding between
+`version` and `pagesize` in the record (44..47) — none of them is read by `slotValid` / `readMeta` -/
+theorem unchecked_offsets_are :
+    (List.range (Gen.layout.pgPtr + Gen.layout.metaSize)).filter (fun o => !(checkedOffsets Gen.layout Gen.hashOrder).contains o) =
+      List.range' 0 8 ++ List.range' 9 23 ++ List.range' 44 4 := by decide
+
+/-- no checked offset is listed twice: the page-type byte, the hashed fields and the stored checksum occupy
+pairwise distinct file bytes -/
+theorem checked_offsets_distinct : (checkedOffsets Gen.layout Gen.hashOrder).Nodup := by decide
+
+/-- every byte of every field that carries meaning is a checked offset -/
+theorem checked_offsets_cover_semantic_fields :
+    Pinned.semanticFields.all (fun f => (fieldOffsets Gen.layout f).all
+      (fun o => (checkedOffsets Gen.layout Gen.hashOrder).contains o)) = true := by decide
+
+/-- the hash order names every field of the record -/
+theorem hash_order_is_total (f : MetaField) : f ∈ Gen.hashOrder := by cases f <;> decide
+
+/-- changing exactly ONE byte of the file, at any checked offset of a header page that was valid, makes that
+slot invalid — no collision assumption -/
+theorem one_damaged_file_byte_is_detected (s s' : Src) (pagesize slot : Nat) (m : MetaRec) (off : Nat)
+    (hv : slotValid Gen.layout Gen.hashOrder s pagesize slot = some m)
+    (hsz : s'.size = s.size)
+    (hsame : ∀ i, i ≠ slot * pagesize + off → s'.get i = s.get i)
+    (hdiff : s'.get (slot * pagesize + off) ≠ s.get (slot * pagesize + off))
+    (hin : off ∈ checkedOffsets Gen.layout Gen.hashOrder) :
+    slotValid Gen.layout Gen.hashOrder s' pagesize slot = none :=
+  one_damaged_file_byte_invalidates Gen.layout Gen.hashOrder checked_offsets_distinct s s' pagesize slot m off
+    hv hsz hsame hdiff hin
+
+/-- damage outside the checked bytes is harmless: the slot stays valid with the same record -/
+theorem undamaged_checked_bytes_keep_the_slot (s s' : Src) (pagesize slot : Nat) (m : MetaRec)
+    (hv : slotValid Gen.layout Gen.hashOrder s pagesize slot = some m) (hsz : s'.size = s.size)
+    (hsame : ∀ off ∈ checkedOffsets Gen.layout Gen.hashOrder,
+      s'.get (slot * pagesize + off) = s.get (slot * pagesize + off)) :
+    slotValid Gen.layout Gen.hashOrder s' pagesize slot = some m :=
+  same_checked_bytes_same_slot Gen.layout Gen.hashOrder hash_order_is_total s s' pagesize slot m hv hsz hsame
+
+/-- non-vacuity of the two theorems' hypothesis: the header page the writer produces for a sealed record is a
+valid slot -/
+example :
+    let m : MetaRec := { metaPage := 1, magic := 0xABCDEF, version := 1, pagesize := 256, rootPage := 3, nextInt := 0,
+                         numPages := 4, freelistPage := 2, txId := 5, hash := 0 }
+    let m1 := MetaRec.seal Gen.layout Gen.hashOrder m
+    slotValid Gen.layout Gen.hashOrder (writeMetaPage Gen.layout 256 1 m1 ⟨512, fun _ => 0⟩) 256 1 = some m1 := by
+  decide +kernel
 
 /-- after a commit, no page of the snapshot it replaced is free, and the commit wrote none of them:
 the state named by the other header is complete until the next writer begins -/
